@@ -248,3 +248,26 @@ PROPS["C07"] = {
     "quick": [rapid("strings", "^TestPropStrings$", 15000, shards=2), rapid("make", "^TestPropMake$", 20000, shards=1), rapid("resolved", "^TestPropResolved$", 8000, shards=1)],
     "thorough": [rapid("strings", "^TestPropStrings$", 400000, shards=6), rapid("make", "^TestPropMake$", 400000, shards=4), rapid("resolved", "^TestPropResolved$", 200000, shards=2)],
 }
+
+WORLD_RULE = ("Worlds are data: 1-4 remote packages (git/https addresses with refs, ports, archive arguments; 1-3 module locations each, also "
+              "with names needing care when printed), 0-3 registry packages with 1-5 offered versions in drawn listing order (pre-releases, "
+              "gaps, optional deprecation notes; the real source of each version is a remote package plus optional sub-path), a dependency "
+              "table embedded in the package trees (per module location and finder: remote, registry(+allowed set) and relative dependencies "
+              "- chains, diamonds, cycles, self-references, cycles through registry hops, absent sub-paths), 2 finders (distinct pointers), "
+              "optional byte-identical or one-file-different clones under another address, fetcher metadata, and a script of 1-4 Add calls "
+              "(AddRemoteSource, AddRegistrySource, AddFinalRegistrySource). The harness fetcher materialises the package tree, the registry "
+              "client and finders answer from the world, everything is logged. ")
+
+PROPS["C08"] = {
+    "pkg": "c08",
+    "level": "exploration",
+    "rule": (WORLD_RULE + "Oracle: an independent reference computes the closure of (remote source, finder) pairs and the brute-force version "
+             "selections; worlds for which it predicts no error must build without error diagnostics and, after Close, every added or "
+             "discovered source is looked up: path inside the bundle root, exists iff the package has that sub-path, holds the fetched "
+             "content (module token and package marker); registry lookups equal the lookup of the registry's real address joined with the "
+             "sub-path; metadata, registry source addresses and versions are retrievable unchanged. Non-trivial = closure of >=2 packages "
+             "with a registry hop, relative dependency or repeated analysis; distinct by case hash."),
+    "assumptions": ["dependency information is a function of package content (finders read files planted in the tree)", "nil metadata and empty metadata are equivalent"],
+    "quick": [rapid("complete", "^TestPropComplete$", 700, shards=4)],
+    "thorough": [rapid("complete", "^TestPropComplete$", 8000, shards=14)],
+}
